@@ -206,8 +206,47 @@ def runEv (max : Nat) (r : Run) (e0 : Ev) : Run :=
     | _, Out.failed => "other"
   emit max r s' head
 
-def detLine (max : Nat) (evs : List Ev) : String :=
-  let r := evs.foldl (runEv max) { s := St.init, last := "", outs := [] }
+/-- `<w>.psave,<mask>,<via>,<w2>.<op2>`: a save in which one block write fails while the others are
+slow, with worker w2's op2 issued concurrently. The locks make this the sequence "failed save, then
+op2" (C13_linearizable); one result token `<save result>&<op2 result>`. -/
+def runPair (max : Nat) (r : Run) (e1 e2 : Ev) : Run :=
+  let (s1, o1) := evStep md5Loc max r.s (resolve r.s e1)
+  let (s2, o2) := evStep md5Loc max s1 e2
+  let h1 := match o1 with
+    | Out.snap l => "ok=" ++ snapStr l
+    | _ => "other"
+  let h2 := match e2, o2 with
+    | Ev.fg _ op, Out.res res => resStr res ++ ptrAfter s2.fs op res
+    | _, Out.res res => resStr res
+    | _, _ => "?"
+  emit max r s2 (h1 ++ "&" ++ h2)
+
+inductive DEv
+  | one (e : Ev)
+  | pair (e1 e2 : Ev)
+
+def parseDEv (s : String) : Option DEv :=
+  match s.splitOn "." with
+  | w :: rest =>
+    let body := ".".intercalate rest
+    if body.startsWith "psave," then
+      match w.toNat?, body.splitOn "," with
+      | some w, "psave" :: mask :: via :: x :: xs =>
+        (match mask.toNat?, parseEv (",".intercalate (x :: xs)) with
+         | some m, some e2 =>
+           (match e2 with
+            | Ev.fg w2 _ | Ev.flush w2 _ _ =>
+              if (via == "m" || via == "s") && w2 != w then some (DEv.pair (Ev.save w m true) e2) else none
+            | _ => none)
+         | _, _ => none)
+      | _, _ => none
+    else (parseEv s).map DEv.one
+  | [] => none
+
+def detLine (max : Nat) (evs : List DEv) : String :=
+  let r := evs.foldl (fun r e => match e with
+    | DEv.one e => runEv max r e
+    | DEv.pair e1 e2 => runPair max r e1 e2) { s := St.init, last := "", outs := [] }
   ";".intercalate r.outs.reverse
 
 /-! free mode: the sequential specification, worker by worker -/
@@ -253,7 +292,7 @@ def stepLine (line : String) : String :=
      | none => "bad-op"
      | some 0 => "bad-op"
      | some max =>
-       match (evs.splitOn ";").mapM parseEv with
+       match (evs.splitOn ";").mapM parseDEv with
        | some evs => detLine max evs
        | none => "bad-op")
   | ["free", max, thr, seed, failpct, streams] =>
